@@ -61,7 +61,7 @@ def por : Option Int → Option Int → Option Int
 /-! ### signatures (`inspect.signature(...).bind / bind_partial`) -/
 
 inductive Err where
-  | typeError | runtimeError | unexpectedError | attributeError | noObject
+  | typeError | runtimeError | unexpectedError | attributeError | noObject | assertionError
   deriving DecidableEq, Repr
 
 /-- The slice of a Python signature that matters for hyper-parameters.
